@@ -228,12 +228,16 @@ func buildPhases() []phase {
 			})
 			// re-use of a pack object: encode, change fields, encode again (classes.go)
 			x.batches(x.base*sp.n/100/25, func() job { return reuseJob(sp, x.g) })
+			// decoding a second message into the object that decoded the first (round5.go)
+			x.batches(x.base*sp.n/100/10, func() job { return redecodeJob(sp, x.g) })
 			// deterministic sweep: every byte-string leaf × every special-content value (special.go)
 			sweep := specialSweepJobs(sp, x.g)
 			si := 0
 			x.batches(len(sweep), func() job { si++; return sweep[si-1] })
 		}})
 	}
+	// capacity limits of the bounded tables the model lists (round5.go)
+	ps = append(ps, phase{"capacity", capacityPhase})
 	// containers and record lists
 	ps = append(ps, phase{"ZipPack.records", func(x *runCtx) { x.batches(x.base/4, func() job { return zipJob(x.g) }) }})
 	ps = append(ps, phase{"LogSinkZipPack.records", func(x *runCtx) {
